@@ -14,6 +14,8 @@ const BS = 64 * 1024
 //	Src 0        zeros
 //	Src 1..99    high-entropy stream number Src (the same stream everywhere)
 //	Src 100+p    low-entropy periodic stream with period p (p>=1)
+//	Src -1-c     constant byte c (0..255): a full 64KiB block of an EVEN constant has weak hash 0 without
+//	             being all zeroes (both rolling sums are multiples of 65536)
 //
 // Xor is applied to every byte of the run.
 type Piece struct {
@@ -72,6 +74,11 @@ func (p Piece) Append(dst []byte) []byte {
 	}
 	start := len(dst)
 	switch {
+	case p.Src < 0:
+		c := byte(-1 - p.Src)
+		for i := 0; i < p.Len; i++ {
+			dst = append(dst, c)
+		}
 	case p.Src == 0:
 		dst = append(dst, make([]byte, p.Len)...)
 	case p.Src >= 100:
